@@ -1,7 +1,7 @@
 #!/bin/bash
 # regression of a property's self-test corpus with the current rules: every mutant and caught seeded change must fire, every
 # equivalent edit and independent refactoring must stay silent.  usage: tools/regress.sh C06 [C07 ...]   (runs them in parallel)
-cd /verif
+cd "$(dirname "$0")/.."
 ev=$(mktemp -d)
 for pid in "$@"; do
   ( HV_EVIDENCE_DIR=$ev python3 -c "
